@@ -28,6 +28,7 @@ CONSTANTS
   MaxCfgs = {k}
   Emit = TRUE
   ResetPerConfig = TRUE
+  ShortcutAnyPlane = FALSE
 INVARIANT PlanesWellFormed
 INVARIANT RecordsCorrect
 INVARIANT Complete
@@ -66,7 +67,8 @@ def run_case(c, builder, detector, unequal, lazy_too=True, crystal=False, ncfg=1
     atoms = Atoms(sym, positions=pos, cell=(4.0, 4.0, z), pbc=True)
     ep = exit_planes_arg(c["spec"])
     ev_result = {"e": "Result", "kind": "c07", "raised": False, "planes": list(c["planes"]), "planes_ppb": [], "axis_fp": [],
-                 "slice_fp": [fixed(t) for t in th], "lazy_ppb": 0, "ncfg": ncfg}
+                 "slice_fp": [fixed(t) for t in th], "lazy_ppb": 0, "ncfg": ncfg,
+                 "explicit": c["spec"][0] == "tuple", "reuse_ppb": 0}
     sink = Sink()
     try:
         if crystal:
@@ -118,11 +120,21 @@ def run_case(c, builder, detector, unequal, lazy_too=True, crystal=False, ncfg=1
             ax = [a for a in res.ensemble_axes_metadata if type(a).__name__ == "ThicknessAxis"]
             ev_result["axis_fp"] = [fixed(v) for v in ax[0].values] if ax else []
         else:
-            ev_result["axis_fp"] = [fixed(sum(th))]
+            ev_result["axis_fp"] = [fixed(sum(th[: planes[0] + 1]))]        # a single exit plane: the result has no thickness axis
         if lazy_too:
             lz = wave.multislice(pot, detectors=dets, lazy=True) if builder == "plane" else wave.multislice(pot, detectors=dets, lazy=True, **kw)
             ev_result["lazy_ppb"] = ppb(relerr(arr(lz), full))
-            ev_result["planes_ppb"].append(ev_result["lazy_ppb"]) if False else None
+        # the caller's own (eager, pre-built) wave functions sent through the potential twice: both runs give the thickness series above
+        # and the object still holds the incident wave afterwards
+        if builder == "plane":
+            wv = abtem.PlaneWave(energy=100e3, extent=pot.extent, gpts=pot.gpts).build(lazy=False)
+        else:
+            wv = abtem.Probe(energy=100e3, semiangle_cutoff=25, extent=pot.extent, gpts=pot.gpts).build(lazy=False, **kw)
+        before = np.asarray(wv.array).copy()
+        r1 = arr(wv.multislice(pot, detectors=dets))
+        r2 = arr(wv.multislice(pot, detectors=dets))
+        ev_result["reuse_ppb"] = max(ppb(relerr(np.squeeze(r1), np.squeeze(full))), ppb(relerr(np.squeeze(r2), np.squeeze(full))),
+                                     ppb(relerr(np.asarray(wv.array), before)))
     except Exception as ex:
         ev_result["raised"] = True
         ev_result["exc"] = f"{type(ex).__name__}: {ex}"[:300]
@@ -154,7 +166,7 @@ def self_test(ctx: Ctx):
             {"e": "MsDetect", "plane": 2, "after_slice": 1, "depth": 4000000},
             {"e": "MsEnd"},
             {"e": "Result", "kind": "c07", "raised": False, "planes": [-1, 0, 1], "planes_ppb": [0, 100, 200], "axis_fp": [0, 2000000, 4000000],
-             "slice_fp": [2000000, 2000000], "ncfg": 1}]
+             "slice_fp": [2000000, 2000000], "ncfg": 1, "explicit": False, "reuse_ppb": 0, "lazy_ppb": 0}]
     b1 = [e for i, e in enumerate(good) if i != 4]                                   # a detection removed
     b2 = json.loads(json.dumps(good)); b2[-1]["planes_ppb"][1] = 9 * 10 ** 6          # plane differs from truncated run
     b3 = json.loads(json.dumps(good)); b3[5]["norm"] = 300000                         # intensity created
